@@ -31,10 +31,16 @@ func (s *timeoutCollector) add(timeout hotstuff.TimeoutMsg) ([]hotstuff.TimeoutM
 		return nil, false
 	}
 	s.timeouts = append(s.timeouts, timeout)
-	if len(s.timeouts) < s.config.QuorumSize() {
+	// only timeouts for the same view count towards (and become part of) that view's quorum
+	timeoutList := make([]hotstuff.TimeoutMsg, 0, s.config.QuorumSize())
+	for _, t := range s.timeouts {
+		if t.View == timeout.View {
+			timeoutList = append(timeoutList, t)
+		}
+	}
+	if len(timeoutList) < s.config.QuorumSize() {
 		return nil, false
 	}
-	timeoutList := slices.Clone(s.timeouts)
 	// remove timeouts for this view from the slice, since we now have a quorum
 	// and we don't need to keep them around anymore.
 	s.timeouts = slices.DeleteFunc(s.timeouts, func(t hotstuff.TimeoutMsg) bool { return t.View == timeout.View })
